@@ -186,6 +186,13 @@ Register(a, rev, st, sf, af, pick) ==
     /\ UNCHANGED <<cmode, readOnly, rwCount, checkpoint, pcAdd, monWait, monNote, env, acked,
                    nextW, calls>>
 
+\* a quorum-type replica registers: kept in a registry of its own; during a bootstrap it neither
+\* counts towards the majority of (data) replicas nor is it a candidate
+RegisterQuorum ==
+    /\ Called("RegisterQuorum", << >>)
+    /\ res' = "ok" /\ served' = "" /\ sig' = <<>>
+    /\ UNCHANGED <<ctl, env, acked, nextW, calls>>
+
 \* Start(a): only the signalled replica; attaches it RW (no sync, no snapshot)
 Start(a, cf) ==
     /\ Called("Start", [a |-> a, cf |-> cf])
@@ -317,7 +324,8 @@ RebuildCopy(a, src) ==
     /\ rsnaps' = [rsnaps EXCEPT ![a] = rsnaps[src]]
     /\ rlog' = [rlog EXCEPT ![a] = rlog[a] \cup rlog[src]]
     /\ rsnapAt' = [rsnapAt EXCEPT ![a] = rsnapAt[src]]
-    /\ UNCHANGED <<ctl, rstate, rmode, rrev, rreb, rcp, acked, nextW, calls>>
+    /\ rreb' = [rreb EXCEPT ![a] = TRUE]       \* the sync task flags the replica while it copies
+    /\ UNCHANGED <<ctl, rstate, rmode, rrev, rcp, acked, nextW, calls>>
 
 \* VerifyRebuildReplica(a): chains compared, counter equalised, then RW
 VerifyRebuild(a, F) ==
@@ -342,7 +350,8 @@ VerifyRebuild(a, F) ==
                     /\ rmode' = [rmode EXCEPT ![a] = "RW"]
                     /\ rrev' = [rrev EXCEPT ![a] = rrev[src]]
                     /\ Settle(cm, rsnaps, F)
-                    /\ UNCHANGED <<reg, maxRev, signalled, pcAdd, monWait, monNote, rstate, rreb,
+                    /\ rreb' = [rreb EXCEPT ![a] = FALSE]     \* ... and clears the flag after the promotion
+                    /\ UNCHANGED <<reg, maxRev, signalled, pcAdd, monWait, monNote, rstate,
                                    rsnaps, rlog, rsnapAt, acked, nextW, calls>>
 
 RemoveReplica(a) ==
@@ -494,6 +503,25 @@ Snapshot(n, S) ==
                   ELSE readOnly' = VolStatus(cm).ro /\ rwCount' = VolStatus(cm).n
                /\ UNCHANGED <<checkpoint, reg, maxRev, signalled, pcAdd,
                               rstate, rmode, rrev, rreb, rcp, rlog, acked, nextW, calls>>
+
+\* Controller.Resize (grow): fanned out to every backend that is not ERR -- the rebuilding
+\* (WO) one included; a replica that fails its resize (F: injected; a replica whose REST state
+\* is `rebuilding` does not offer the action at all) is marked ERR like after a failed
+\* snapshot, and the call fails only if no RW replica is left.  Sizes themselves are checked
+\* by the rule SizesAgree on the replicas' own metadata (all replicas are provisioned alike:
+\* the harness grows the unattached ones as well).
+ResizeVol(F) ==
+    /\ Called("Resize", [F |-> F])
+    /\ served' = "" /\ sig' = <<>>
+    /\ LET T  == {a \in Members : cmode[a] # "ERR"}
+           Fl == (F \cup {a \in T : rreb[a]}) \cap T
+           cm == [a \in Addr |-> IF a \in Fl THEN "ERR" ELSE cmode[a]]
+       IN /\ cmode' = cm
+          /\ monNote' = [a \in Addr |-> IF a \in Fl /\ monWait[a] THEN monNote[a] + 1 ELSE monNote[a]]
+          /\ monWait' = [a \in Addr |-> IF a \in Fl THEN FALSE ELSE monWait[a]]
+          /\ res' = IF Fl = {} \/ RWs(cm) # {} THEN "ok" ELSE "failed"
+          /\ readOnly' = VolStatus(cm).ro /\ rwCount' = VolStatus(cm).n
+          /\ UNCHANGED <<checkpoint, reg, maxRev, signalled, pcAdd, env, acked, nextW, calls>>
 
 -----------------------------------------------------------------------------
 (* Environment *)
